@@ -128,7 +128,7 @@ OBLIGATIONS = [
        bound="file contents of 4 and 1 bytes over {LF, CR, 'a', 'b', ' '}"),
     Ob("keywords_from_directory", keywords_from_directory, bytes_params("c", 3) + bytes_params("e", 1),
        pre=" and ".join(LINECH.format(x=f"c{i}") for i in range(3)) + " and " + LINECH.format(x="e0"),
-       tier="both", timeout=900, layer="B", functions=["multidecoder.registry.get_keywords", "multidecoder.keyword.find_keywords"],
+       tier="both", timeout=400, layer="B", functions=["multidecoder.registry.get_keywords", "multidecoder.keyword.find_keywords"],
        stubs=["os.walk and open inside multidecoder.registry serve an in-memory directory (one file in the root, one in a sub-directory)"],
        bound="file contents of 3 and 1 bytes over {LF, CR, 'a', 'b', ' '}: blank lines, CR/LF/CRLF, duplicates, empty files arise by themselves"),
 ]
@@ -176,7 +176,7 @@ def pin(x, lo, hi):
 OBLIGATIONS.append(Ob("include_exclude", include_exclude,
                       [("use_include", "bool")] + [(f"i{k}", "bool") for k in range(2)] + [(f"x{k}", "bool") for k in range(2)]
                       + [("m0", f"int:0:{len(MODULES) - 1}")],
-                      tier="both", timeout=900, layer="B", functions=["multidecoder.registry.get_analyzers"],
+                      tier="both", timeout=400, layer="B", functions=["multidecoder.registry.get_analyzers"],
                       bound=f"one module by free index into the {len(MODULES)} decoder modules plus one fixed module, free membership of both in include and exclude, include given or None (all 512 cases)"))
 
 
